@@ -278,7 +278,7 @@ theorem pinterp_sound_frag (hctx : (Value.record req.context).DRT) (hstore : Sto
         red
         rw [hxa] at sa
         exact sound_res trivial (typedOK_vacuous (by intro _ _ h; cases h)) (sem_unary σ _ _ env req es op sa.2.2)
-  | @binaryApp op a b hop hfa hfb iha ihb =>
+  | @binaryApp op a b hfa hfb iha ihb =>
     intro m0 preq n hC
     cases n with
     | zero => simp [pinterp, Sound]
@@ -301,8 +301,8 @@ theorem pinterp_sound_frag (hctx : (Value.record req.context).DRT) (hstore : Sto
           red
           rw [hxb] at sb; obtain ⟨hevb, _⟩ := sb
           have : evaluate req es env (.binaryApp op a b) = applyBinary es op v1 v2 := by simp [evaluate, hev, hevb]
-          rw [this, papplyBinary_storeFree _ es op hop]
-          exact sound_ofResult (fun w hw => applyBinary_DRT hop hw)
+          rw [this, papplyBinary_ofConcrete]
+          exact sound_ofResult (fun w hw => applyBinary_DRT' hstore hw)
         | res e2 =>
           red
           rw [hxb] at sb
@@ -317,7 +317,7 @@ theorem pinterp_sound_frag (hctx : (Value.record req.context).DRT) (hstore : Sto
           | none =>
             red
             refine sound_res trivial (typedOK_vacuous (by intro _ _ h; cases h)) ?_
-            exact sem_binary σ _ _ env req es op hop (by rw [hev]; exact sem_toExpr hd1 _ _ _ _) sb.2.2
+            exact sem_binary σ _ env req es op (by rw [hev]; exact sem_toExpr hd1 _ _ _ _) sb.2.2
       | res e1 =>
         red
         rw [hxa] at sa
@@ -345,7 +345,7 @@ theorem pinterp_sound_frag (hctx : (Value.record req.context).DRT) (hstore : Sto
           | none =>
             red
             refine sound_res trivial (typedOK_vacuous (by intro _ _ h; cases h)) ?_
-            exact sem_binary σ _ _ env req es op hop sa.2.2 (by rw [hevb]; exact sem_toExpr hd2 _ _ _ _)
+            exact sem_binary σ _ env req es op sa.2.2 (by rw [hevb]; exact sem_toExpr hd2 _ _ _ _)
         | res e2 =>
           red
           rw [hxb] at sb
@@ -361,7 +361,7 @@ theorem pinterp_sound_frag (hctx : (Value.record req.context).DRT) (hstore : Sto
           | none =>
             red
             refine sound_res trivial (typedOK_vacuous (by intro _ _ h; cases h)) ?_
-            exact sem_binary σ _ _ env req es op hop sa.2.2 sb.2.2
+            exact sem_binary σ _ env req es op sa.2.2 sb.2.2
   | @getAttr e attr hfe ihe =>
     intro m0 preq n hC
     cases n with
@@ -488,6 +488,64 @@ theorem pinterp_sound_frag (hctx : (Value.record req.context).DRT) (hstore : Sto
         cases hs : v.asEntity with
         | error c => red; exact sound_err c (by simp [evaluate, hev, hs])
         | ok u => red; exact sound_val (by simp [evaluate, hev, hs]) (trivial)
+  | @set xs hxs ih =>
+    intro m0 preq n hC
+    cases n with
+    | zero => simp [pinterp, Sound]
+    | succ n =>
+      have hc := collect_sound σ req es env (pinterp m0 preq (.ofConcrete es) env n) xs (fun x hx => ih x hx m0 preq n hC)
+      simp only [pinterp]
+      cases hcc : collectPV (pinterp m0 preq (.ofConcrete es) env n) xs with
+      | error r =>
+        rw [hcc] at hc; red
+        rcases hc with h | h | ⟨c, h, c', h2⟩
+        · subst h; exact sound_fuel
+        · subst h; exact sound_panic
+        · subst h; exact sound_err c' (by simp [evaluate, h2])
+      | ok pvs =>
+        rw [hcc] at hc; red
+        cases hs : splitPV pvs with
+        | inl vs =>
+          red
+          have hp := splitPV_inl hs; subst hp
+          obtain ⟨he, hd⟩ := pvrel_values σ req es env hc
+          refine sound_val (by simp [evaluate, he]) ?_
+          simp only [Value.DRT]
+          exact RT_set (fun w hw => (hd w (mem_mkSet hw)).rt) (mkSet_idem vs)
+        | inr rs =>
+          red
+          have hp := splitPV_inr hs; subst hp
+          refine sound_res trivial (typedOK_vacuous (by intro _ _ h; cases h)) ?_
+          exact sem_set σ _ env req es (pvrel_asExpr σ req es env hc)
+  | @call fn args hfn hdrt hxs ih =>
+    intro m0 preq n hC
+    cases n with
+    | zero => simp [pinterp, Sound]
+    | succ n =>
+      have hc := collect_sound σ req es env (pinterp m0 preq (.ofConcrete es) env n) args (fun x hx => ih x hx m0 preq n hC)
+      simp only [pinterp]
+      cases hcc : collectPV (pinterp m0 preq (.ofConcrete es) env n) args with
+      | error r =>
+        rw [hcc] at hc; red
+        rcases hc with h | h | ⟨c, h, c', h2⟩
+        · subst h; exact sound_fuel
+        · subst h; exact sound_panic
+        · subst h; exact sound_err c' (by simp [evaluate, h2])
+      | ok pvs =>
+        rw [hcc] at hc; red
+        cases hs : splitPV pvs with
+        | inl vs =>
+          red
+          have hp := splitPV_inl hs; subst hp
+          obtain ⟨he, hd⟩ := pvrel_values σ req es env hc
+          have : evaluate req es env (.call fn args) = callExt fn vs := by simp [evaluate, he]
+          rw [this, pcallExt_ne_unknown hfn]
+          exact sound_ofResult (fun w hw => hdrt vs w hw)
+        | inr rs =>
+          red
+          have hp := splitPV_inr hs; subst hp
+          refine sound_res trivial (typedOK_vacuous (by intro _ _ h; cases h)) ?_
+          exact sem_call σ _ env req es hfn (pvrel_asExpr σ req es env hc)
 
 end
 
